@@ -261,6 +261,61 @@ def r21_5(ctx, rep):
                "the scratch path `%s` depends on the final name only: two concurrent writers share it, the second rename finds it gone" % txt[:80])
 
 
+@SPEC.rule(
+    "R21.6",
+    "the cache file is one pickle record, so `complete` and `loads` are the same thing: no path through save_model executes pickle.dump on the "
+    "cache file twice (or in a loop), and no path through load_model executes pickle.load twice — a file of several records that is cut at a "
+    "record boundary unpickles without error, and a reader that takes `end of file` for `no more records` serves the fragment",
+)
+def r21_6(ctx, rep):
+    R = "R21.6"
+    for fname, op in (("save_model", "pickle.dump"), ("load_model", "pickle.load")):
+        fn = api_fn(ctx, fname, R)
+        site = API + ":" + fname
+        cfg = CFG(fn, R)
+        def runs(x):
+            if x.ast is None:
+                return False
+            if x.kind == "iter":
+                return any(call_name(c) == op for c in calls(x.ast.iter))
+            if x.kind in ("stmt", "test") and not isinstance(x.ast, (ast.With, ast.Try, ast.If, ast.For, ast.While, ast.FunctionDef)):
+                return any(call_name(c) == op for c in calls(x.ast))
+            return False
+
+        nodes = [x for x in cfg.nodes if runs(x)]
+        if not nodes:
+            raise MechanismMissing(R, "%s not found in %s" % (op, fname))
+        again = None
+        for a in nodes:
+            for b in nodes:
+                if any(b.id in cfg.reachable(s_) or b.id == s_ for s_ in cfg.succ[a.id]):
+                    again = (a, b)
+        rep.ob(R, site, "%s runs at most once per call" % op, again is None,
+               "after `%s` (line %s) another %s can run (line %s): the cache file then holds, or is read as, more than one record, and truncation "
+               "at the boundary between them is not detectable" % ((norm(again[0].ast)[:40], again[0].ast.lineno, op, again[1].ast.lineno) if again else ("", "", op, "")))
+
+
+@SPEC.rule(
+    "R21.7",
+    "the cache file is written last: nothing it refers to is produced after it — no call of _codegen_model (which writes the shared libraries "
+    "the file names) is reachable in save_model once pickle.dump has run; a writer killed in between leaves a complete, fresh cache file "
+    "that points at libraries which do not exist (or at those of an earlier model)",
+)
+def r21_7(ctx, rep):
+    R = "R21.7"
+    fn = api_fn(ctx, "save_model", R)
+    site = API + ":save_model"
+    cfg = CFG(fn, R)
+    dumps = [x for x in cfg.stmts() if any(call_name(c) == "pickle.dump" for c in calls(x.ast))]
+    gens = [x for x in cfg.nodes if x.ast is not None and x.kind in ("stmt", "test", "iter") and not isinstance(x.ast, (ast.If, ast.For, ast.While, ast.With, ast.Try))
+            and any((call_name(c) or "").endswith("_codegen_model") for c in calls(x.ast))]
+    if not dumps or not gens:
+        raise MechanismMissing(R, "pickle.dump / the call of _codegen_model not found in save_model")
+    late = [(d, g) for d in dumps for g in gens if g.id in cfg.reachable(d.id)]
+    rep.ob(R, site, "libraries are built before the cache file is written", not late,
+           "`%s` (line %s) can run after the cache file has been written" % ((norm(late[0][1].ast)[:60], late[0][1].ast.lineno) if late else ("", "")))
+
+
 # -- seeded variants ---------------------------------------------------------
 from ._mut import replace_in_func  # noqa: E402
 
